@@ -48,6 +48,10 @@ def gen_cases(tier, seed):
         T, tcls = bases.rand_transform(rng, ntot, "none" if i % 4 else None)
         cases.append({"shells": shells, "transform": T, "classes": classes + [tcls, "nsh:%d" % nsh, "types:" + "".join(s["t"] for s in shells)],
                       "cost": sum((3 + a) * (3 + b) * len(x["e"]) * len(y["e"]) for x, a in zip(shells, ls) for y, b in zip(shells, ls))})
+    for k, (la, lb) in enumerate(itertools.product(range(4), repeat=2)):
+        rng = bases.rng_for("C08", seed, tier, "displaced", la, lb)
+        shells, classes = bases.displaced_pair(rng, la, lb)
+        cases.append({"shells": shells, "transform": None, "classes": classes + ["T:none", "nsh:2", "types:" + "".join(s_["t"] for s_ in shells)], "cost": 40})
     return cases
 
 
